@@ -17,7 +17,11 @@ Tie     (T) translator: declaration order of dependency/output variants and fiel
         `ExportFile.fsWrite` assumes); for every `export --file` of the run `pipedata writefile` predicts the file content from what
         the path held and the document - once as the model of the code (`writeFile`: the document) and once as open+write_all with the
         observed flags (`openWrite`) - and both are compared with the bytes found in the file.
-Oracle  independent of the model, on the real command output only: second export identical to the first
+        (O) orderings: lib/c14_strings.extract_export_order re-reads which ordering export.rs applies to the steps, the dependencies and the
+        outputs of a step (`.sorted()` = derived Ord | a sort by the Display string | none) into Gen/ExportOrder.lean; the obligations
+        C14_export_dependency_order_canonical / C14_export_output_order_canonical / C14_export_order_as_modelled are stated over that table.
+Oracle  independent of the model, on the real command output only: (a) export is a function of the pipeline: the same pipeline exported
+        repeatedly by fresh processes (HashMap order differs per process), to stdout and to a file, gives one document; (b) second export identical to the first
         except for the name (json and yaml, raw text), every other pipeline's export unchanged (the source pipeline
         included), import over an existing name refused without --overwrite with everything unchanged, accepted with it.
         Channels: export --file -> import --file | stdin, and export to stdout piped into import.
@@ -125,7 +129,7 @@ def gen_dep(rng, runnable, step_names):
         return pc.Dep(kind, path=rng.choice(['lines.txt', 'a.txt', 'crlf.txt'] if runnable else ['lines.txt', 'a.txt', 'none.log', 'b c.txt']),
                       regex=rng.choice(REGEXES))
     if kind in ('Lines', 'LineItems'):
-        b, e = rng.choice([(0, 1), (1, 3), (2, 2), (0, 100), (5, 9), (3, 1), (0, 0)])
+        b, e = rng.choice(LINE_RANGES)
         return pc.Dep(kind, path=rng.choice(['lines.txt', 'a.txt', 'sub dir/f 1.csv', 'crlf.txt']), begin=b, end=e)
     if kind == 'Step':
         if not step_names:
@@ -135,6 +139,44 @@ def gen_dep(rng, runnable, step_names):
         return pc.Dep('Generic', generic_command=rng.choice(['echo gen', 'cat a.txt', 'ls d | wc -l', "echo 'é \"q\"'"] if runnable else
                                                              ['echo gen', 'date +%Y', 'cat a.txt', "echo 'é \"q\"'\necho 2", 'ls | wc -l # c']))
     return pc.Dep('SqliteQueryDigest', path='db.sqlite', query=rng.choice(QUERIES))
+
+
+LINE_RANGES = [(0, 1), (1, 3), (2, 2), (0, 100), (5, 9), (3, 1), (0, 0)]
+GENERIC_ARGS = [' # again', '; true', ' | sort', ' && :', ' ;:']
+
+
+def sibling_dep(rng, d, same_kind=0.8):
+    """a dependency NEXT TO `d`: the same kind on the same file / glob, differing only in the secondary field (another regex, another
+    line range, another parameter key, another argument of the generic command), or - `same_kind` permitting - the neighbouring kind
+    with the same fields (regex <-> regex-items, lines <-> line-items, glob <-> glob-items), or the same dependency once more.
+    A step that watches several things in ONE file has such dependencies."""
+    v, p = d.variant, dict(d.prim)
+    twin = {'Regex': 'RegexItems', 'RegexItems': 'Regex', 'Lines': 'LineItems', 'LineItems': 'Lines', 'Glob': 'GlobItems', 'GlobItems': 'Glob'}
+    if v in twin and rng.random() >= same_kind:
+        return pc.Dep(twin[v], **p)
+    if v in ('Regex', 'RegexItems'):
+        p['regex'] = rng.choice([r for r in REGEXES if r != p['regex']])
+    elif v in ('Lines', 'LineItems'):
+        p['begin'], p['end'] = rng.choice([r for r in LINE_RANGES if r != (p['begin'], p['end'])])
+    elif v == 'Param':
+        keys = [k for k in PARAM_KEYS.get(p['path'], []) if k != p['key']]
+        p['key'] = rng.choice(keys) if keys else p['key'] + '.x'
+    elif v == 'Generic':
+        p['generic_command'] = p['generic_command'] + rng.choice(GENERIC_ARGS)
+    elif v == 'SqliteQueryDigest':          # "can be used once": the database file itself
+        return pc.Dep('File', path=p['path'])
+    return pc.Dep(v, **p)                   # File, Step, Glob, GlobItems: the same dependency once more
+
+
+def gen_deps(rng, runnable, step_names, n, have=(), sibling=0.3):
+    """n dependencies for one `step dependency` command; with probability `sibling` each one is a sibling (see `sibling_dep`) of a
+    dependency the step already has (`have`) or gets in this command"""
+    out = []
+    for _ in range(n):
+        pool = list(have) + out
+        out.append(sibling_dep(rng, rng.choice(pool)) if pool and rng.random() < sibling else gen_dep(rng, runnable, step_names))
+    sq = [d for d in out if d.variant == 'SqliteQueryDigest']          # `--sqlite-query`: "Can be used once" per command line
+    return [d for d in out if d.variant != 'SqliteQueryDigest' or d is sq[0]]
 
 
 def gen_out(rng, used):
@@ -170,12 +212,12 @@ def gen_scenario(rng, idx, runnable):
             when = rng.choice([None, None, 'by_dependencies', 'always', 'never'])
             ops.append(('step', p, s, cmd, when))
             steps[p].append(s)
+            have = []
             for _ in range(rng.choice([0, 1, 1, 2])):
                 # step dependencies only on earlier steps (no cycles) in runnable pipelines
                 sn = names[:i] if runnable else [x for x in names if x != s]
-                deps = [gen_dep(rng, runnable, sn) for _ in range(rng.choice([1, 1, 2, 3, 5]))]
-                if sum(1 for d in deps if d.variant == 'SqliteQueryDigest') > 1:     # "Can be used once"
-                    deps = [d for d in deps if d.variant != 'SqliteQueryDigest'] + [d for d in deps if d.variant == 'SqliteQueryDigest'][:1]
+                deps = gen_deps(rng, runnable, sn, rng.choice([1, 1, 2, 3, 5]), have)
+                have += deps
                 ops.append(('dep', p, s, deps))
             if rng.random() < 0.5:
                 ops.append(('out', p, s, [gen_out(rng, used_out) for _ in range(rng.choice([1, 1, 2, 3]))]))
@@ -271,6 +313,17 @@ def gen_cli_strings(rng, idx):
                 deps.append(pc.Dep(k, path=f, begin=rng.choice([0, 1, 5]), end=rng.choice([1, 3, 100])))
             elif k == 'Step' and len(names) > 1:
                 deps.append(pc.Dep(k, name=rng.choice([x for x in names if x != s])))
+            last = deps[-1] if deps else None
+            if last is not None and last.variant in ('Regex', 'RegexItems', 'Param', 'Lines', 'LineItems') and rng.random() < 0.3:
+                # the same file watched once more: another generated regex / key, another range (same or neighbouring kind)
+                q = dict(last.prim)
+                if 'regex' in q: q['regex'] = cs.gen_field(rng, 'regex', 'cli')
+                elif 'key' in q:
+                    key = cs.gen_field(rng, 'param_key', 'cli')
+                    q['key'] = key if not key.startswith(':') else 'k' + key
+                else: q['begin'], q['end'] = rng.choice([(0, 3), (1, 1), (2, 100)])
+                twin = {'Regex': 'RegexItems', 'RegexItems': 'Regex', 'Lines': 'LineItems', 'LineItems': 'Lines'}
+                deps.append(pc.Dep(twin[last.variant] if last.variant in twin and rng.random() < 0.2 else last.variant, **q))
         if deps:
             ops.append(('dep', p, s, deps))
         if rng.random() < 0.5:
@@ -389,6 +442,102 @@ def gen_export_path(rng, idx):
         else:
             ops.append(('xfile', rng.choice([p, big]) if has_big else p, fresh.pop(), fmt, slot(fmt), gen_pre(rng)))
     return {'id': idx, 'runnable': False, 'git': False, 'ops': ops, 'family': 'export-path'}
+
+
+SAME_FILE_KINDS = ['RegexItems', 'RegexItems', 'Regex', 'LineItems', 'Lines', 'Param', 'Generic', 'File', 'GlobItems']
+
+
+def gen_cluster(rng, kind, k):
+    """k dependencies of one kind on ONE file that differ only in the secondary field (regex / line range / parameter key / argument of
+    the generic command); for the kinds without a secondary field (file, glob-items): the same dependency k times"""
+    if kind in ('Regex', 'RegexItems'):
+        first = pc.Dep(kind, path=rng.choice(['lines.txt', 'a.txt', 'crlf.txt', 'reqs.txt']), regex=rng.choice(REGEXES))
+    elif kind in ('Lines', 'LineItems'):
+        first = pc.Dep(kind, path=rng.choice(['lines.txt', 'reqs.txt', 'sub dir/f 1.csv']), begin=0, end=rng.choice([1, 2, 100]))
+    elif kind == 'Param':
+        f = rng.choice(list(PARAM_KEYS))
+        first = pc.Dep(kind, path=f, key=rng.choice(PARAM_KEYS[f]))
+    elif kind == 'Generic':
+        first = pc.Dep(kind, generic_command=rng.choice(['echo gen', 'cat a.txt', 'ls d | wc -l']))
+    elif kind == 'GlobItems':
+        first = pc.Dep(kind, glob=rng.choice(['d/*.dat', '*.txt']))
+    else:
+        first = pc.Dep('File', path=rng.choice(['a.txt', 'lines.txt', 'reqs.txt']))
+    out = [first]
+    while len(out) < k:
+        d = sibling_dep(rng, rng.choice(out), same_kind=1.0)
+        if kind in ('File', 'GlobItems') or all(d.prim != x.prim for x in out):
+            out.append(d)
+    return out
+
+
+def gen_same_file(rng, idx):
+    """SEVERAL dependencies of one step on ONE file: per step 1-2 clusters of 2-4 dependencies of one kind on one path that differ only
+    in the regex / the line range / the parameter key / an argument of the generic command (or are the same dependency given again),
+    given in one `step dependency` command or spread over two, next to dependencies of other kinds on the same path.  Probes
+    (`repeat` = the same pipeline exported by several fresh processes; export -> import -> export; json and yaml) BEFORE the pipeline
+    is run, AFTER it was run (every dependency carries recorded state), and after a dependency was added again to a step whose
+    dependencies have recorded state (equal up to that state)."""
+    p = rng.choice(PIPE_NAMES[:8])
+    ops, names = [('write', 'reqs.txt', 'numpy==2.1.0\npandas==2.2.2\ntorch==2.4.0\nl1 x\n\n42\n'), ('new', p, None)], []
+    while len(names) < rng.choice([1, 1, 2, 3]):
+        n = pick(rng, STEP_NAMES_PLAIN, STEP_NAMES_WILD, w=(4, 1))
+        if n not in names:
+            names.append(n)
+    have = {n: [] for n in names}
+    for i, s_ in enumerate(names):
+        ops.append(('step', p, s_, rng.choice(COMMANDS_OK), rng.choice([None, None, 'always', 'never'])))
+        first, later = [], []
+        for _ in range(rng.choice([1, 1, 2])):
+            cl = gen_cluster(rng, rng.choice(SAME_FILE_KINDS), rng.choice([2, 2, 3, 3, 4]))
+            cut = len(cl) if rng.random() < 0.6 else rng.randrange(1, len(cl))          # one command line, or spread over two
+            first += cl[:cut]; later += cl[cut:]
+            path = cl[0].prim.get('path')
+            if path and rng.random() < 0.4:                                            # another kind that watches the same file
+                # (`--regex f:/re` takes the file name up to the first `/`: a file in a subdirectory cannot be named, the generator does not try)
+                first.append(rng.choice([pc.Dep('File', path=path), pc.Dep('Lines', path=path, begin=0, end=2)] +
+                                        ([pc.Dep('Regex', path=path, regex='^l')] if '/' not in path else [])))
+        if i and rng.random() < 0.4:
+            first.append(pc.Dep('Step', name=rng.choice(names[:i])))
+        rng.shuffle(first)
+        ops.append(('dep', p, s_, first))
+        if later:
+            ops.append(('dep', p, s_, later))
+        have[s_] = first + later
+        if rng.random() < 0.3:
+            ops.append(('out', p, s_, [pc.Out(rng.choice(['File', 'Metric']), f'o{i}.{rng.choice(["txt", "json"])}')]))
+    fresh = [x for x in PIPE_NAMES if x != p]
+    rng.shuffle(fresh)
+
+    def probes(n):
+        out = [('repeat', p, rng.choice(['json', 'yaml']), rng.choice([3, 4]))]
+        for fmt in rng.sample(['json', 'yaml'], n):
+            out.append(('roundtrip', p, fresh.pop(), fmt, rng.choice(['file', 'file', 'stdin', 'pipe']), False))
+        return out
+    ops += probes(2 if rng.random() < 0.6 else 1)              # before any run
+    ops.append(('run', p))
+    ops += probes(2 if rng.random() < 0.6 else 1)              # recorded state in every dependency
+    if rng.random() < 0.6:                                     # a dependency of a step that has recorded state, given again (fresh state)
+        s_ = rng.choice(names)
+        again = [rng.choice(have[s_])] if rng.random() < 0.6 else [sibling_dep(rng, rng.choice(have[s_]), same_kind=1.0)]
+        if again[0].variant != 'SqliteQueryDigest':
+            ops.append(('dep', p, s_, again))
+            ops += probes(1)
+            if rng.random() < 0.4:
+                ops += [('run', p)] + probes(1)
+    return {'id': idx, 'runnable': True, 'git': False, 'ops': ops, 'family': 'same-file'}
+
+
+def same_file_groups(sc):
+    """per step of a scenario: the groups of >= 2 dependencies given on the command line that share kind and file (or glob / are both
+    generic commands).  -> list of (variant, size, all members equal?)"""
+    per = {}
+    for op in sc['ops']:
+        if op[0] == 'dep':
+            for d in op[3]:
+                key = (op[1], op[2], d.variant, d.prim.get('path', d.prim.get('glob', '')))
+                per.setdefault(key, []).append(d)
+    return [(k[2], len(v), all(x.prim == v[0].prim for x in v)) for k, v in per.items() if len(v) > 1 and k[2] != 'Step']
 
 
 def scenario_strings(sc):
@@ -615,6 +764,8 @@ class Real:
                 self.roundtrip(*op[1:])
             elif k == 'xfile':
                 self.xfile(*op[1:])
+            elif k == 'repeat':
+                self.repeat(*op[1:])
             elif k == 'refuse':
                 self.refuse(*op[1:])
         return self
@@ -634,6 +785,35 @@ class Real:
     def fail(self, what, **detail):
         self.oracle.append({'what': what, **detail})
 
+    def not_a_function(self, src, fmt, t1, t2, how):
+        """clause (a): export is a function of the pipeline - two exports of one pipeline with nothing in between but reads"""
+        l1, l2 = t1.split('\n'), t2.split('\n')
+        i = next((i for i, (a, b) in enumerate(zip(l1, l2)) if a != b), min(len(l1), len(l2)))
+        self.fail(f'two exports of the unchanged pipeline {src!r} ({fmt}; {how}) differ: export is not a function of the pipeline; '
+                  f'first difference at line {i + 1}: {l1[i:i + 1]} vs {l2[i:i + 1]}', first=t1[:2500], second=t2[:2500])
+
+    def repeat(self, src, fmt, n):
+        """`src` exported n times by n fresh processes (the iteration order of every HashMap differs from process to process),
+        alternately to stdout and to a file: always the same document."""
+        if src not in self.names()[0]:
+            self.trace.append(('repeat', None)); return
+        docs = []
+        for i in range(n):
+            if i % 2 == 0:
+                rc, t, err, _ = self.export(src, fmt)
+                t = t[:-1] if t is not None and t.endswith('\n') else t          # `output!` prints the document followed by one newline
+            else:
+                rc, t, err, _ = self.export(src, fmt, to_file=True)
+            if rc != 0 or t is None:
+                self.fail(f'export of pipeline {src!r} ({fmt}) failed', rc=rc, stderr=err[-400:])
+                self.trace.append(('repeat', None)); return
+            docs.append(t)
+        self.counts[f'repeat:{fmt}:{n}'] = self.counts.get(f'repeat:{fmt}:{n}', 0) + 1
+        k = next((k for k in range(1, n) if docs[k] != docs[0]), None)
+        if k is not None:
+            self.not_a_function(src, fmt, docs[0], docs[k], f'export 1 and export {k + 1} of {n} in a row, to stdout / to a file')
+        self.trace.append(('repeat', {'json': docs[0] if fmt == 'json' else None}))
+
     def roundtrip(self, src, dst, fmt, via, ow):
         names0, rows0, _ = self.names()
         if src not in names0:              # precondition of the probe (only unmet in shrunk scenarios)
@@ -643,6 +823,9 @@ class Real:
         if rc1 != 0 or text1 is None:
             self.fail(f'export of pipeline {src!r} ({fmt}) failed', rc=rc1, stderr=err1[-400:])
             self.trace.append(('roundtrip', None)); return
+        if fmt == 'json' and snap0.get(src) is not None and snap0[src] != text1 + '\n':
+            # the snapshot taken a moment ago holds what `export --format json` printed for the same pipeline
+            self.not_a_function(src, fmt, snap0[src][:-1], text1, 'to stdout, then to a file')
         other = 'yaml' if fmt == 'json' else 'json'
         x1 = self.export(src, other)[1]       # the other format, for the cross-format comparison
         # hypotheses under which C14_reader_preserves_document says "the parser receives exactly this text" (counted, no verdict)
@@ -881,6 +1064,8 @@ class Mirror:
                                                            f'export {t(op[2])}', 'list']
             elif k == 'refuse':
                 out += [f'export {t(op[1])}', f'import {t(op[2])} 0', 'list']
+            elif k == 'repeat':
+                out += [f'shuf {shuf[(i + 2) % 3]}', f'export {t(op[1])}']
         return out
 
     def canon_export(self, text, fmt, strict):
@@ -946,6 +1131,9 @@ class Mirror:
             elif k == 'refuse':
                 o = ob[1]
                 out += [None, None, None] if o is None else [None, 'ok' if o['rc_ok'] else 'err', self.canon_list(o['list'])]
+            elif k == 'repeat':
+                o = ob[1]
+                out += ['ok', self.canon_export(o['json'], 'json', not ran) if o and o['json'] is not None else None]
         return out
 
 
@@ -1011,6 +1199,7 @@ def judge(chk, results):
             if op[0] == 'step': chk.count('when:' + str(op[4]))
             if op[0] == 'roundtrip': chk.count(f'roundtrip:{op[3]}:{op[4]}:{"overwrite" if op[5] else "new"}')
         WRITES.extend(r.writes)
+        count_same_file(chk, sc)
         chk.count('scenario:' + ('run' if sc['runnable'] else 'static') + (':git' if sc['git'] else ''))
         chk.count('family:' + sc.get('family', 'pools'))
         cs.count_strings(chk, scenario_strings(sc))
@@ -1038,6 +1227,24 @@ def judge(chk, results):
             chk.samples.append({'ops': [enc_op(o) for o in sc['ops']][:12], 'model_lines': m.lines()[:16], 'model_answers': (got or [])[:16],
                                 'implementation_as_answers': exp[:16]})
     return bad
+
+
+def count_same_file(chk, sc):
+    """distribution of the dimension "several dependencies of one step on one file": groups per kind and size, and per probe whether the
+    probed pipeline has such a group and whether it was run before the probe (recorded state)"""
+    groups = same_file_groups(sc)
+    for v, n, equal in groups:
+        chk.count(f'same-file:{v}:{"same-dependency-again" if equal else "differ-in-secondary-field"}:{min(n, 4)}{"+" if n > 4 else ""}')
+    chk.count('scenario-with-same-file-group' if groups else 'scenario-without-same-file-group')
+    if not groups:
+        return
+    ran, dep_after_run = False, False
+    for op in sc['ops']:
+        if op[0] == 'run': ran = True
+        elif op[0] == 'dep' and ran: dep_after_run = True
+        elif op[0] in ('roundtrip', 'repeat', 'xfile'):
+            chk.count(f'same-file-probe:{op[0]}:{op[3] if op[0] != "repeat" else op[2]}:' +
+                      ('dependency-added-after-run' if dep_after_run else 'after-run' if ran else 'before-run'))
 
 
 def count_blank_roundtrips(chk, sc, r):
@@ -1204,13 +1411,14 @@ def signature(failure_texts, sc):
     ops = sc['ops']
     txt = ' '.join(failure_texts)
     sig = {'kind': 'other'}
-    if 'without --overwrite was accepted' in txt: sig['kind'] = 'overwrite-not-refused'
+    if 'export is not a function of the pipeline' in txt: sig['kind'] = 'export-not-a-function'
+    elif 'without --overwrite was accepted' in txt: sig['kind'] = 'overwrite-not-refused'
     elif 'changed the export of pipeline' in txt: sig['kind'] = 'other-pipeline-changed'
     elif 'is not the document' in txt: sig['kind'] = 'export-file-is-not-the-document'
     elif 'onto a directory' in txt: sig['kind'] = 'export-onto-directory'
     elif 'differs from the export' in txt: sig['kind'] = 'roundtrip-differs'
     elif 'failed' in txt: sig['kind'] = 'command-failed'
-    sig['formats'] = sorted({op[3] for op in ops if op[0] == 'roundtrip'})
+    sig['formats'] = sorted({op[3] for op in ops if op[0] == 'roundtrip'} | {op[2] for op in ops if op[0] == 'repeat'})
     sig['channels'] = sorted({op[4] for op in ops if op[0] == 'roundtrip'})
     sig['after_run'] = any(op[0] == 'run' for op in ops)
     if any(op[0] == 'xfile' for op in ops):
@@ -1254,6 +1462,23 @@ def minimise(chk, xvc, order, base, sc, kind, want):
             break
         else:
             n = min(len(ops), n * 2)
+    # second phase: single dependencies / outputs out of the `dep` / `out` commands that are left (all candidates of a round in parallel;
+    # a failure that needs luck - HashMap order - may survive a round by chance, hence the candidates are tried twice)
+    rounds = 0
+    while rounds < 12 and time.time() - t0 < 150:
+        rounds += 1
+        cands = [ops[:i] + [op[:3] + (op[3][:j] + op[3][j + 1:],)] + ops[i + 1:] for i, op in enumerate(ops) if op[0] in ('dep', 'out') and len(op[3]) > 1
+                 for j in range(len(op[3]))]
+        if not cands:
+            break
+        res = fails_many(cands)
+        hit = next((c for c, f in zip(cands, res) if f), None)
+        if hit is None:
+            res = fails_many(cands)
+            hit = next((c for c, f in zip(cands, res) if f), None)
+        if hit is None:
+            break
+        ops = hit
     return dict(sc, ops=ops)
 
 
@@ -1318,6 +1543,20 @@ def corpus_scenarios():
         ('dep', 'src', 'keep', [D('SqliteQueryDigest', path='db.sqlite', query='select a\n\nfrom t\n\n'), D('File', path='dir\n\nx/f\n'), D('Step', name='a\n\nb')]),
         ('out', 'src', 'keep', [O('File', 'o\n\nx'), O('Metric', 'm\n\n.json')]), ('out', 'src', 'a\n\nb', [O('Image', '\n\ni.png')])]
         + rts('src', 'e', RT_COMBOS[:3] + RT_COMBOS[3:4])})
+    # seeded C14-5: one step watches several things in one file - three regex-items dependencies on one path (equal `Display` strings), and
+    # the other kinds with a secondary field; exported repeatedly and round-tripped before and after a run, both formats
+    many = [D('RegexItems', path='lines.txt', regex='^l1'), D('RegexItems', path='lines.txt', regex='^x'), D('RegexItems', path='lines.txt', regex='\\d+'),
+            D('Regex', path='lines.txt', regex='^l'), D('Regex', path='lines.txt', regex='x$'), D('LineItems', path='lines.txt', begin=0, end=1),
+            D('LineItems', path='lines.txt', begin=1, end=3), D('Lines', path='lines.txt', begin=0, end=1), D('Lines', path='lines.txt', begin=0, end=100),
+            D('Param', path='params.yaml', key='k'), D('Param', path='params.yaml', key='f'), D('Generic', generic_command='echo gen'),
+            D('Generic', generic_command='echo gen # again'), D('File', path='lines.txt')]
+    c.append({'id': 'corpus-several-dependencies-on-one-file', 'runnable': True, 'git': False, 'family': 'corpus', 'ops': [
+        ('new', 'src', None), ('step', 'src', 'watch', 'true', None), ('dep', 'src', 'watch', many),
+        ('repeat', 'src', 'json', 4), ('repeat', 'src', 'yaml', 4), ('roundtrip', 'src', 'b0', 'json', 'file', False), ('roundtrip', 'src', 'b1', 'yaml', 'stdin', False),
+        ('run', 'src'),
+        ('repeat', 'src', 'yaml', 4), ('repeat', 'src', 'json', 4), ('roundtrip', 'src', 'a0', 'yaml', 'file', False), ('roundtrip', 'src', 'a1', 'json', 'pipe', False),
+        ('dep', 'src', 'watch', [D('File', path='lines.txt'), D('RegexItems', path='lines.txt', regex='^l1')]),       # again, without recorded state
+        ('repeat', 'src', 'json', 4), ('roundtrip', 'src', 'a2', 'yaml', 'file', False)]})
     return c
 
 
@@ -1630,14 +1869,29 @@ def export_file_stream(chk, xvc, model, base, winfo):
 
 def run(chk: Check):
     quick = chk.tier == 'quick'
+    # (O) the orderings cmd_export applies to steps / dependencies / outputs -> Gen/ExportOrder.lean, BEFORE the package is built: the obligations
+    # C14_export_dependency_order_canonical, C14_export_output_order_canonical, C14_export_order_as_modelled are stated over that table
+    try:
+        oinfo = cs.extract_export_order(REPO)
+        oinfo['gen_file_rewritten'] = cs.write_export_order(oinfo)
+    except cs.ReaderTieBroken as e:
+        chk.proof['broken'].append({'stage': 'translator', 'errors': [str(e)]})
+        oinfo = None
+    chk.extra['export_order'] = oinfo
+    if oinfo and any(oinfo[k] != 'derivedOrd' for k in ('steps', 'dependencies', 'outputs')):
+        chk.notes.append('export.rs orders ' + ', '.join(f'{k} by {oinfo[k]} (`{oinfo["source"][k]}`)' for k in ('steps', 'dependencies', 'outputs') if oinfo[k] != 'derivedOrd') +
+                         ': not the derived total order the model transcribes; see C14_export_order_as_modelled / C14_export_dependency_order_canonical and, for a '
+                         'sort by the Display string, C14_sort_by_display_counterexample (fields the Display string of each dependency kind shows: ' +
+                         json.dumps(oinfo.get('display', {}), sort_keys=True) + ')')
     model = chk.lean('XvcPipeData', 'XvcPipeData.Props.C14', exe='pipedata',
                      extra_modules=['XvcPipeData.Schema', 'XvcPipeData.SchemaLemmas', 'XvcPipeData.SchemaReach', 'XvcPipeData.Reader',
-                                    'XvcPipeData.ReaderLemmas', 'XvcPipeData.ExportFile'])
+                                    'XvcPipeData.ReaderLemmas', 'XvcPipeData.ExportFile', 'XvcPipeData.ExportOrder', 'XvcPipeData.Gen.ExportOrder'])
     MODEL[0] = model if model and os.path.exists(model) else None
     xvc = chk.build_xvc()
     chk.trusted_base += [
         'lib/pipe_common.py: anchored reader of enum-variant / struct-field declaration order (the derive(Ord) the model abstracts as `TotalOrd`) and the rank it computes for each dependency',
         'lib/c14.py: scenario generator, canonicaliser of `xvc pipeline export` JSON into the driver\'s schema line, raw-text comparison modulo the name line',
+        'lib/c14_strings.py: extract_export_order - anchored reader of the expressions that fill `dependencies:` / `outputs:` of XvcStepSchema and of the `for (e, s) in steps.iter()…` loop in export.rs; `.sorted()` is read as the derived Ord, `.sorted_by[_cached]_key(|d| d.to_string())` as a stable sort by the Display string, no sort as HashMap order, anything else is a broken tie',
         'lib/c14_strings.py: string / document generators, the independent JSON and YAML emitters of the reader stream (literal block scalars with explicit indentation indicator, double-quoted scalars), bytes <-> `Sym` stream (Python\'s UTF-8 decoder), anchored reader of cmd_import\'s input handling',
         'modelled, not verified: serde / serde_json / serde_yaml encoders and decoders applied to ONE string (exercised differentially only: level partial) - what xvc does to the document text before the parser is modelled (Reader.lean) and tied; derive(Ord) on XvcDependency/XvcOutput assumed a total order consistent with Eq; XvcEntity order = counter order (C08_gen_unique); HashMap iteration order = arbitrary permutation',
     ]
@@ -1674,7 +1928,7 @@ def run(chk: Check):
         winfo = {'write': None, 'read': {}}
     chk.extra['export_write'] = winfo
     del WRITES[:]
-    nstatic, nrun, ncli, nlines, ndoc, nreader, npath = (32, 20, 24, 8, 28, 24, 16) if quick else (300, 160, 120, 40, 160, 120, 160)
+    nstatic, nrun, ncli, nlines, ndoc, nreader, npath, nsame = (32, 20, 24, 8, 28, 24, 16, 12) if quick else (300, 160, 120, 40, 160, 120, 160, 120)
     chk.extra['rule'] = (f'corpus (seeded C14-4 demos: export again to the same path after `step remove`, export over the export of a larger pipeline, every path state once; seeded C14-1 minimised: blank line in a step / generic command; blank lines at the ends; a document with blank lines in every '
                          f'string field; stdout-keep-scalar; non-finite TOML) first; then {nstatic} generated repositories that are never run (1-3 pipelines incl. `default`, '
                          '0-4 steps each, names/commands/paths from pools with quotes, newlines, CR, tabs, non-ASCII, YAML-significant tokens; all 11 offline dependency '
@@ -1688,7 +1942,11 @@ def run(chk: Check):
                          '(+ one probe in 40 % of the command-line-string and document scenarios): `export --file P` with P absent / empty / holding a shorter, equally long or '
                          'longer document (bigger pipeline, same pipeline before remove-last-step / remove-first-step / shortened command, the other format) / garbage / '
                          'read-only / a symbolic link (also dangling) / a directory, sequences export -> edit -> export to the SAME path -> import -> export; the bytes of P '
-                         'must be the document `export` prints to stdout. Non-trivial: a scenario with an '
+                         f'must be the document `export` prints to stdout; {nsame} same-file scenarios (+ sibling dependencies with probability 0.3 in the pool, command-line-string '
+                         'families): steps with 2-4 dependencies of ONE kind on ONE file that differ only in the regex / line range / parameter key / argument of the '
+                         'generic command, or the same dependency given again, in one `step dependency` command or two; `repeat` probes (the same pipeline exported 3-4 times by fresh '
+                         'processes, to stdout and to a file: one document) and round trips in json and yaml before the run, after it, and after a dependency was added again '
+                         'to a step with recorded state. Non-trivial: a scenario with an '
                          'accepted round trip of a pipeline that has steps; distinct by op list.')
     base = os.path.join(chk.scratch, 'repos')
     os.makedirs(base, exist_ok=True)
@@ -1705,8 +1963,10 @@ def run(chk: Check):
     scs += [gen_cli_strings(chk.rng, n0 + i) for i in range(ncli)]; n0 += ncli
     scs += [gen_lines_run(chk.rng, n0 + i) for i in range(nlines)]; n0 += nlines
     scs += [gen_export_path(chk.rng, n0 + i) for i in range(npath)]; n0 += npath
+    scs += [gen_same_file(chk.rng, n0 + i) for i in range(nsame)]; n0 += nsame
     docs = [gen_doc_scenario(chk.rng, n0 + i, order) for i in range(ndoc)]
-    if not bad:          # a corpus failure is the answer; the generated stream would only repeat it
+    if not any(kind == 'oracle' for kind, *_ in bad):          # a failing INPUT in the corpus is the answer (the generated stream would only repeat it); a
+        # corpus scenario on which only the model and the code disagree is not: the search for a failing input goes on
         for i in range(0, len(scs), 64):
             bad += judge(chk, run_scenarios(chk, xvc, MODEL[0], scs[i:i + 64], order, base))
         for i in range(0, len(docs), 64):
